@@ -346,7 +346,22 @@ func c17Print(m *c17Module) string {
 			fmt.Fprintf(&b, " -> %s %s", e.out[0].attrs(), e.out[0].ty)
 		}
 		b.WriteString(" {\n")
-		fmt.Fprintf(&b, "    var acc: f32 = %s;\n", acc)
+		// where the resource-reaching expression is evaluated: the statement position is derived from fields already
+		// drawn (no further PRNG draws), so that every position occurs with every stage / helper shape over a run
+		switch (e.wg[0] + len(e.in) + 2*len(e.uses) + ei) % 6 {
+		case 1:
+			fmt.Fprintf(&b, "    var acc: f32 = 0.0;\n    if sink < 1.0 { acc = %s; }\n", acc)
+		case 2:
+			fmt.Fprintf(&b, "    var acc: f32 = 0.0;\n    for (var k = 0u; k < 1u; acc += %s) { k++; }\n", acc)
+		case 3:
+			fmt.Fprintf(&b, "    var acc: f32 = 0.0;\n    var k = 0u;\n    loop { if k > 0u { break; } continuing { acc = %s; k++; } }\n", acc)
+		case 4:
+			fmt.Fprintf(&b, "    var acc: f32 = 0.0;\n    switch u32(sink) { case 0u: { acc = %s; } default: { } }\n", acc)
+		case 5:
+			fmt.Fprintf(&b, "    var acc: f32 = 0.0;\n    { { acc = %s; } }\n", acc)
+		default:
+			fmt.Fprintf(&b, "    var acc: f32 = %s;\n", acc)
+		}
 		for _, io := range e.in {
 			fmt.Fprintf(&b, "    acc += %s;\n", c17ToF(io.ty, pre+io.name))
 		}
@@ -1093,7 +1108,7 @@ func c17CheckGlsl(m *c17Module, mod *ir.Module, r *run.Rng) (problems []string, 
 // ---------- the check ----------
 
 func C17(c *run.Ctx) int {
-	replayWitnesses(c, map[string]func(witness) string{"spirv-decoration": witnessSpirvDecoration})
+	replayWitnesses(c, map[string]func(witness) string{"spirv-decoration": witnessSpirvDecoration, "exec-spirv": witnessExecSpirv})
 	n := c.N(600, 8000)
 	vers := []spirv.Version{spirv.Version1_0, spirv.Version1_3, spirv.Version1_4, spirv.Version1_6}
 	c.Each(n, func(i int) (string, run.Outcome) {
